@@ -1034,6 +1034,16 @@ FormatterToHTML::writeAttrURI(
             {
                 accumContent(ch);
             }
+            else if (isUTF16Surrogate(ch) == true &&
+                     i + 1 < theStringLength &&
+                     0xdc00 <= theString[i + 1] && theString[i + 1] < 0xe000)
+            {
+                // A surrogate pair is one character, so it gets one
+                // character reference...
+                const XalanUnicodeChar  next = theString[++i];
+
+                writeNumberedEntityReference(((ch - 0xd800) << 10) + next - 0xdc00 + 0x00010000);
+            }
             else
             {
                 accumContent(XalanUnicode::charAmpersand);
